@@ -28,7 +28,7 @@ for op in _wide + _narrow:
                       bounds="unwind 4; %s" % ("left kind fixed, 5 right kinds" if op in _wide else "9 kind pairs {Null,Int,'a'}^2"),
                       functions=["expr::Expr::binop", "expr::BinOp::eval"]))
 for n in ["c13_ordering_consistent", "c13_unop_neg", "c13_unop_bitnot", "c13_unop_boolnot", "c13_and_or",
-          "c13_short_circuit", "c13_mul_exact16", "c13_div_exact16"]:
+          "c13_and_or_literal_a", "c13_and_or_literal_b", "c13_short_circuit", "c13_mul_exact16", "c13_div_exact16"]:
     _c13.append(H("proofs::c13::" + n, timeout=900, symbolic="operand Values as above (exact16: both operands any i16)",
                   bounds="unwind 4", functions=["expr::UnOp::eval", "expr::Ast::eval", "expr::Expr::unop"]))
 PROPS["C13"] = {
@@ -142,6 +142,10 @@ PROPS["C01"] = {
           bounds="unwind 8", functions=["value::ValueRef::create", "stringpool::StringPool::incref"]),
         H(_CELLS + "c20_stringref_width", timeout=300, symbolic="reference number 1..0xFFFFFF, width flag", bounds="unwind 6",
           functions=["stringpool::StringRef::write", "stringpool::StringRef::read"]),
+        # every pool mutation marks the pool modified (the finisher saves the pool only then)
+        H(_POOL + "c08_incref_free_a_a", timeout=600, symbolic="reference counts; incref reusing a free slot", bounds="3 entries incl. a free slot; unwind 6", functions=_F_POOL),
+        H(_POOL + "c08_incref_ab_a", timeout=600, symbolic="reference counts; incref of an existing entry / at the cap", bounds="2 entries; unwind 6", functions=_F_POOL),
+        H(_POOL + "c08_decref_ab", timeout=600, symbolic="reference counts, entry index; decref to zero and above zero", bounds="2 entries; unwind 6", functions=_F_POOL),
     ],
     "bounds": "one cell; <=2 rows x <=2 columns; pools of <=3 entries with concrete texts; all integers / reference counts symbolic",
     "outside": "composition through Package and cfb (finisher, close modes, crash after flush), read_rows, long strings, other code pages",
@@ -169,6 +173,10 @@ PROPS["C02"] = {
           bounds="2 entries, texts concrete; unwind 8", functions=_F_POOL),
         H(_POOL + "c02_pool_read_a_free_a_long", timeout=300, symbolic="reference counts; duplicate text and a free slot; 3-byte references",
           bounds="3 entries; unwind 8", functions=_F_POOL),
+        H(_POOL + "c02_pool_header_shapes", timeout=600, symbolic="none: seven concrete header shapes incl. the long-string escape with low word 0, 1, 0xffff (a symbolic escape marker makes the entry count symbolic: > 15 min)",
+          bounds="<=3 records; unwind 8", functions=["stringpool::StringPoolBuilder::read_from_pool", "stringpool::StringPoolBuilder::build_from_data"]),
+        H(_PS + "c09_propvalue_read_i4", timeout=600, mem_gb=5, symbolic="8 payload bytes, available stream length", bounds="type tag concrete (I4); unwind 8", functions=["propset::PropertyValue::read"]),
+        H(_PS + "c09_propvalue_read_i2", tier="thorough", timeout=900, mem_gb=5, symbolic="payload bytes, stream length", bounds="type tag concrete (I2)", functions=["propset::PropertyValue::read"]),
         H(_PS + "c02_propset_read_vs_spec", tier="thorough", timeout=1800, mem_gb=12,
           symbolic="two integer property values, order of the id/offset table, padding between values",
           bounds="2 properties; unwind 10", functions=["propset::PropertySet::read", "propset::PropertyValue::read"]),
@@ -285,15 +293,17 @@ PROPS["C10"] = {
 
 # ---------------------------------------------------------------- C20 (Kani part; the M part is added below)
 PROPS["C20"] = {
-    "level": "model_checking", "engine": "kani",
-    "technique": "bounded model checking (Kani/CBMC) of StringRef::write for every reference number",
-    "claim": "For every reference number 1..0xFFFFFF: in two-byte mode StringRef::write returns an error exactly when the "
-             "number exceeds 0xFFFF (never truncates, never panics) and otherwise round-trips; three-byte mode always "
-             "writes 3 bytes. The other limits of the property (32 columns, 65,536 rows, 65,536th string, name lengths) "
-             "are not decided here.",
-    "note": "Two of five limits are within reach (reference width here; the reader's row limit is planned on engine M). "
-            "create_table's column limit, incref's 65,536th-string panic and name-length limits need Package/cfb or "
-            "65,535-entry pools.",
+    "level": "model_checking", "engine": "kani+mir-smt", "mir": True,
+    "technique": "bounded model checking (Kani/CBMC) of StringRef::write for every reference number; MIR of "
+                 "Table::read_rows' integer prefix symbolically executed into SMT (z3/cvc5) for every stream length and row size",
+    "claim": "Two of the five limits. (1) For every reference number 1..0xFFFFFF: in two-byte mode StringRef::write returns "
+             "an error exactly when the number exceeds 0xFFFF (never truncates, never panics) and otherwise round-trips; "
+             "three-byte mode always writes 3 bytes. (2) For every u64 stream length and row size, Table::read_rows' prefix "
+             "cannot divide by zero or overflow, allocates exactly data_length / row_size rows only when that is <= 65536 "
+             "and returns the limit error exactly when it is larger. The asymmetry (no limit on the write side), the "
+             "32-column check, incref's 65,536th-string panic and name-length limits are not decided here.",
+    "note": "Trusted: Kani/CBMC; MIR translator, models of seek/rewind/sum (fresh integers), z3/cvc5. create_table's column "
+            "limit, incref's 65,536th-string panic (needs a 65,535-entry pool) and name-length limits need Package/cfb.",
     "kani": [H(_CELLS + "c20_stringref_width", timeout=300, symbolic="reference number 1..0xFFFFFF, width flag", bounds="unwind 6",
                functions=["stringpool::StringRef::write", "stringpool::StringRef::read"]),
              H(_CELLS + "c01_cell_roundtrip_str_short", timeout=300, symbolic="string cell value, two-byte references", bounds="unwind 6", functions=_F_CELL)],
@@ -335,7 +345,7 @@ PROPS["C14"] = {
     "claim": "For the project-code part of the code-page layer: identifier lookup and reverse lookup are mutually inverse "
              "for every i32 (Kani); every code page selects the encoding_rs table of the Windows code page its identifier "
              "names (MIR + SMT, symbolic discriminant; 28591 -> windows-1252 accepted); the US-ASCII codec obeys the "
-             "per-character and concatenation laws for all strings of <=4 bytes (Kani). That encoding_rs's tables "
+             "per-character and concatenation laws on six concrete string shapes (a table of runs decided by CBMC). That encoding_rs's tables "
              "implement the Windows code pages, and the 1024-byte chunk loop around encoding_rs, are trusted / outside.",
     "note": "Trusted: encoding_rs's tables (per-character laws over 1.1M scalars x 26 pages are table lookups inside a "
             "dependency: one symbolic char through WINDOWS_1252 did not finish in 10 min), the reference table in "
@@ -344,13 +354,108 @@ PROPS["C14"] = {
     "kani": [
         H("proofs::c14::c14_id_inverse", timeout=300, symbolic="any i32 identifier; any of the 26 code pages", bounds="loop-free",
           functions=["codepage::CodePage::from_id", "codepage::CodePage::id"]),
-        H("proofs::c14::c14_ascii_laws_len1", timeout=600, symbolic="1 byte of valid UTF-8", bounds="strings of 1 byte; unwind 8",
-          functions=["codepage::ascii_encode", "codepage::ascii_decode", "codepage::CodePage::encode", "codepage::CodePage::decode"]),
-        H("proofs::c14::c14_ascii_laws_len2", timeout=900, symbolic="2 bytes of valid UTF-8 (two ASCII or one 2-byte char)", bounds="strings of 2 bytes; unwind 8",
-          functions=["codepage::ascii_encode", "codepage::ascii_decode"]),
-        H("proofs::c14::c14_ascii_decode_total", timeout=600, symbolic="3 arbitrary bytes", bounds="3 bytes; unwind 8", functions=["codepage::ascii_decode"]),
+        H("proofs::c14::c14_ascii_shapes", timeout=600, symbolic="none: six concrete string shapes (symbolic bytes through the String-building codec run out of memory, measured)",
+          bounds="6 shapes; unwind 8", functions=["codepage::ascii_encode", "codepage::ascii_decode", "codepage::CodePage::encode", "codepage::CodePage::decode"]),
+        H("proofs::c14::c14_ascii_decode_shapes", timeout=600, symbolic="none: one concrete byte string with non-ASCII bytes", bounds="unwind 8", functions=["codepage::ascii_decode"]),
     ],
-    "bounds": "all i32 ids; 26 code pages; US-ASCII strings up to 2 bytes (thorough: 3)",
+    "bounds": "all i32 ids; all 26 code pages (symbolic discriminant); US-ASCII codec on concrete shapes only",
     "outside": "encoding_rs tables, the chunked encoder loop, strings across the 1024-byte buffer boundary",
+    "assumptions": _KASSUME,
+}
+
+
+# ---------------------------------------------------------------- C07
+_C07Q = ["c07_identifier_len1", "c07_identifier_len3", "c07_property_len3", "c07_uppercase_len3", "c07_lowercase_len3",
+         "c07_integer_len2", "c07_integer_len5", "c07_doubleinteger_len3",
+         "c07_cabinet_len3", "c07_guid_total_short", "c07_int_gate", "c07_str_gate"]
+_C07T = ["c07_integer_len6", "c07_doubleinteger_len10", "c07_cabinet_len13"]
+PROPS["C07"] = {
+    "level": "model_checking", "engine": "kani",
+    "technique": "bounded model checking (Kani/CBMC) of Category::validate and Column::is_valid_value on symbolic inputs "
+                 "against reference predicates written from the documented grammar (differential)",
+    "claim": "Column::is_valid_value agrees with the documented validity for every 32-bit integer / null against every "
+             "symbolic integer or string column definition (type, nullability, range); Category::validate agrees with "
+             "reference predicates for every ASCII string of the stated length per category (identifier, property, "
+             "upper/lower case, 16/32-bit integer text, cabinet) and never panics; the version and language-list "
+             "grammars go through str::split, which runs CBMC out of memory at 24 GB even on ten CONCRETE strings "
+             "(measured), so they are outside the claim together with GUID; where the "
+             "documentation is silent (leading '+', the most negative integer) no verdict is demanded. GUID grammar "
+             "(38 symbolic bytes through Uuid::parse_str: no answer in 13 min) and the insert/update gate itself are outside.",
+    "note": "Trusted: Kani/CBMC, the reference predicates in kani/src/proofs/c07.rs. Outside: Insert/Update::exec's use of "
+            "the validators, arities, strings longer than the stated lengths, non-ASCII strings, GUID and the library-built "
+            "UUID / language-list values.",
+    "kani": [H("proofs::c07::" + n, tier="quick" if n in _C07Q else "thorough", timeout=900 if n in _C07Q else 2400,
+               mem_gb=5 if n in _C07Q else 10,
+               symbolic="every byte of an ASCII string of the length in the harness name (int_gate: column type, nullability, range, value)",
+               bounds="string length as named; unwind as in the harness", functions=["category::Category::validate", "column::Column::is_valid_value"])
+             for n in _C07Q + _C07T],
+    "bounds": "strings of 1-6 (thorough: up to 13) ASCII bytes; full 32-bit integers",
+    "outside": "GUID, multi-byte strings, the executors' gate, arities",
+    "assumptions": _KASSUME,
+}
+
+# ---------------------------------------------------------------- C17
+_C17Q = ["c17_code_preserved", "c17_tag_total", "c17_unknown_region_en", "c17_unknown_region_zh", "c17_unknown_region_de",
+         "c17_unknown_region_fr", "c17_unknown_region_es", "c17_unknown_region_ar", "c17_unknown_language",
+         "c17_well_known_a", "c17_well_known_b", "c17_well_known_c", "c17_well_known_d", "c17_regional_tag_unique"]
+PROPS["C17"] = {
+    "level": "model_checking", "engine": "kani",
+    "technique": "bounded model checking (Kani/CBMC) of Language::{from_code, code, tag, from_tag}: all 65,536 codes "
+                 "symbolically for the code->tag direction, concrete tags for the table-scanning tag->code direction",
+    "claim": "For every 16-bit identifier: the code is preserved; tag() returns without panicking, gives 'und' for an "
+             "unknown language whatever the sublanguage, and otherwise the bare language tag or a '<language>-<region>' "
+             "extension of it. For six languages a tag with an unknown region maps to a code that carries the bare "
+             "language tag (never a different known regional variant); an unknown language maps to the neutral "
+             "language; 24 well-known Windows identifiers carry their standard tags in both directions (concrete tags: "
+             "a table comparison decided by CBMC). Thorough tier: tag -> language -> tag stability for every code whose "
+             "tag has length 2, 3 or 5 (per-loop unwind bounds read from the goto binary).",
+    "note": "Trusted: Kani/CBMC; the list of well-known identifier/tag pairs in kani/src/proofs/c17.rs (from the Windows "
+            "language-identifier reference). Outside: tags longer than 5 bytes in the stability harness, non-ASCII tags, "
+            "arbitrary symbolic tags through from_tag's 127-entry scan (measured: 10 min / 9 GB per length class).",
+    "kani": [H("proofs::c17::" + n, timeout=900, symbolic="the 16-bit code (code_preserved, tag_total); none for the concrete-tag harnesses",
+               bounds="unwind 14 (binary searches) / 130 (table scan on concrete tags)", functions=["language::Language::from_code", "language::Language::tag", "language::Language::from_tag", "language::Language::code"])
+             for n in _C17Q]
+    + [H("proofs::c17::c17_stable_len%d" % L, tier="thorough", timeout=3000, mem_gb=12, symbolic="the 16-bit code, restricted to tags of length %d" % L,
+         bounds="global unwind 9; from_tag's table loops 130 via --unwindset", functions=["language::Language::from_tag", "language::Language::tag"],
+         unwindset=[("from_tag", 130)]) for L in (2, 3, 5)],
+    "bounds": "all 65,536 codes (code -> tag); 6 + 24 concrete tags (tag -> code)",
+    "outside": "symbolic tags, tags longer than 5 bytes",
+    "assumptions": _KASSUME,
+}
+
+# ---------------------------------------------------------------- C09
+PROPS["C09"] = {
+    "level": "model_checking", "engine": "kani+mir-smt", "mir": True,
+    "technique": "bounded model checking (Kani/CBMC) of the parser kernels on arbitrary buffers; Kani's panic / overflow / "
+                 "bounds checks are the assertion",
+    "claim": "Untrusted input modelled as an arbitrary buffer: the cell decoder, reference decoder and bit-field decoder "
+             "(all inputs), the pool header reader (any <=14 bytes), build_from_data on short data, and the pool's read "
+             "accessors on foreign states (any counts, any reference 1..0xFFFFFF) return a value or an error, never "
+             "panic. Pool mutators on foreign states panic in two known regions (recorded as known findings, witnessed on "
+             "every run); outside those regions they do not. Arbitrary FILES (cfb), Package::open's catalogue unwraps, "
+             "read_rows, joins and the FFI layer are outside.",
+    "note": "Trusted: Kani/CBMC. Outside: cfb::CompoundFile::open, the unwraps on catalogue cells in Package::open "
+            "(package.rs:311,342-353,377-386,418-451; visible by reading, reachable only through the container), "
+            "Table::read_rows (measured out of reach), property sets with strings, ffi crate.",
+    "kani": [
+        H(_CELLS + "c02_read_value_vs_spec", timeout=300, symbolic="4 input bytes, length 0..4, column type, reference width", bounds="unwind 6", functions=_F_CELL),
+        H(_CELLS + "c02_bitfield_vs_spec", timeout=300, symbolic="the whole i32 bit-field", bounds="loop-free", functions=["column::ColumnBuilder::with_bitfield"]),
+        H(_POOL + "c09_pool_header_total", timeout=900, symbolic="14 header bytes and the stream length 0..14", bounds="unwind 8", functions=["stringpool::StringPoolBuilder::read_from_pool", "codepage::CodePage::from_id"]),
+        H(_POOL + "c09_pool_data_short", timeout=900, symbolic="two entry lengths 0..2, reference counts, available data bytes 0..3", bounds="unwind 8", functions=["stringpool::StringPoolBuilder::build_from_data"]),
+        H(_POOL + "c09_pool_read_ops_total", timeout=600, symbolic="reference counts (no invariant), reference number 1..0xFFFFFF", bounds="2 entries; unwind 8", functions=["stringpool::StringPool::get", "stringpool::StringPool::refcount"]),
+        H(_POOL + "c09_pool_write_ops_guarded", timeout=900, symbolic="reference counts, entry index, operation", bounds="2 entries; outside the known-finding regions", functions=["stringpool::StringPool::decref", "stringpool::StringPool::incref"]),
+        H(_POOL + "c09_kf_decref_dangling", timeout=600, known="C09-decref-dangling", symbolic="reference number 3..0xFFFFFF", bounds="witness of a known finding", functions=["stringpool::StringPool::decref"]),
+        H(_POOL + "c09_kf_decref_zero_count", timeout=600, known="C09-decref-zero-count", symbolic="other entry's count", bounds="witness of a known finding", functions=["stringpool::StringPool::decref"]),
+        H(_POOL + "c09_kf_incref_zero_count_with_text", timeout=600, known="C09-incref-zero-count-with-text", symbolic="other entry's count", bounds="witness of a known finding", functions=["stringpool::StringPool::incref"]),
+        H(_PS + "c09_propvalue_read_lpstr_len0", timeout=600, mem_gb=5, symbolic="payload bytes, stream length; LPSTR length field 0", bounds="type tag and length field concrete; unwind 8", functions=["propset::PropertyValue::read"]),
+        H(_PS + "c09_propvalue_read_lpstr_len1", timeout=600, mem_gb=5, symbolic="payload bytes, stream length; LPSTR length field 1", bounds="type tag and length field concrete", functions=["propset::PropertyValue::read"]),
+        H(_PS + "c09_propvalue_read_i4", timeout=600, mem_gb=5, symbolic="payload bytes, stream length", bounds="type tag concrete (I4)", functions=["propset::PropertyValue::read"]),
+        H(_PS + "c09_propvalue_read_unknown", timeout=600, mem_gb=5, symbolic="payload bytes, stream length", bounds="type tag concrete (5: unknown)", functions=["propset::PropertyValue::read"]),
+    ] + [H(_PS + n, tier="thorough", timeout=900, mem_gb=5, symbolic="payload bytes, stream length", bounds="type tag concrete", functions=["propset::PropertyValue::read"])
+         for n in ["c09_propvalue_read_i2", "c09_propvalue_read_i1", "c09_propvalue_read_filetime", "c09_propvalue_read_empty", "c09_propvalue_read_lpstr_len2", "c09_propvalue_read_lpstr_huge"]] + [
+        H(_PS + "c09_propset_read_total", tier="thorough", timeout=2400, mem_gb=12, symbolic="header fields and 24 section bytes", bounds="<=1 property; unwind 26", functions=["propset::PropertySet::read", "propset::PropertyValue::read"]),
+    ],
+    "bounds": "buffers of 4-14 bytes; pools of 2 entries",
+    "outside": "arbitrary files, Package::open, read_rows, joins, FFI",
     "assumptions": _KASSUME,
 }
